@@ -111,7 +111,16 @@ ABSTRACT_CYCLE_QUERIES = [
 
 def abstract_cycles():
     """(label, schema text, document)"""
-    return [("%s / %s" % (sl, ql), st, qt) for sl, st in ABSTRACT_CYCLE_SCHEMAS.items() for ql, qt in ABSTRACT_CYCLE_QUERIES]
+    # every schema also has an unrelated interface `Other` (implemented by C only) and a root field of that type, so that
+    # INTERFACE-typed conditions that can never apply meet the cycles from both sides
+    extra = "interface Other { z: Int }\ntype C implements Other { z: Int }\n"
+    queries = ABSTRACT_CYCLE_QUERIES + [
+        ("unrelated-interface-condition-under-object", "query Q { a { ... on Other { z } x } }\n"),
+        ("unrelated-interface-condition-under-self", "query Q { su { __typename ... on Other { z } } }\n"),
+        ("self-condition-under-unrelated-interface", "query Q { other { __typename ... on SU { __typename } } }\n"),
+        ("self-spread-under-unrelated-interface", "query Q { other { __typename ...FSU } }\nfragment FSU on SU { __typename }\n"),
+    ]
+    return [("%s / %s" % (sl, ql), st.replace("type Query {", "type Query { other: Other") + extra, qt) for sl, st in ABSTRACT_CYCLE_SCHEMAS.items() for ql, qt in queries]
 
 
 def nesting(depths=(8, 16, 32, 64, 200, 3000)):
